@@ -22,6 +22,16 @@ func main() {
 		fmt.Fprintln(os.Stderr, "usage: c10race <family> <quick|thorough>")
 		os.Exit(2)
 	}
+	if os.Args[1] == "--firstuse" {
+		// c10race --firstuse <op>...: runs the ops one after the other in this (new) process - so the first one really
+		// is the first use of every lazily built table - and prints the result of the last one
+		res := ""
+		for _, name := range os.Args[2:] {
+			res = harness.RunGuarded(name)
+		}
+		fmt.Print(res)
+		return
+	}
 	fam, tier := os.Args[1], os.Args[2]
 	rounds := 150
 	if tier == "thorough" {
